@@ -117,10 +117,18 @@ func main() {
 			initCoq, initDesc = "IStr "+lib.ZsStr(q), "new URLSearchParams("+js(q)+")"
 		default:
 			k := r.Intn(5)
+			longList := form == 3 && r.Chance(45) // long lists with few names: stability of sort() only shows beyond a dozen pairs
+			if longList {
+				k = 13 + r.Intn(60)
+			}
 			var ps [][2]string
 			used := map[string]bool{}
+			few := []string{g.name(), g.name(), g.name(), "b", "a"}
 			for i := 0; i < k; i++ {
 				nm := g.name()
+				if longList {
+					nm = few[r.Intn(len(few))]
+				}
 				if form == 2 { // record: distinct, non-integer keys
 					if used[nm] || nm == "" {
 						continue
@@ -159,13 +167,23 @@ func main() {
 			initCoq, initDesc = "IPairs "+coqPairs(ps), ctor
 		}
 		nops := 1 + r.Intn(10)
+		forceSort := strings.Contains(initDesc, "],[") && strings.Count(initDesc, "],[") >= 12
+		if forceSort {
+			nops += 2
+		}
 		var opsCoq, opsDesc []string
 		iters := 0
 		var iterKinds []string
 		mut, dupOps := 0, 0
 		for i := 0; i < nops; i++ {
 			var stmt, coq string
-			switch k := r.Intn(20); {
+			k := r.Intn(20)
+			if forceSort && i == nops-2 {
+				k = 11 // sort()
+			} else if forceSort && i == nops-1 {
+				k = 17 // list the pairs
+			}
+			switch {
 			case k < 4:
 				nm, v := g.name(), g.value()
 				stmt = fmt.Sprintf("p.append(%s,%s); obs.push(['none']);", js(nm), js(v))
